@@ -401,7 +401,8 @@ def c08_routes(tier, seed):
 # =========================================================================================== C16
 C16_PROGRAMS = ["x = 1", "def f(a, *b, c=1):\\n    return a", "import os\\nprint(os.sep)", "class A:\\n    '''doc'''\\n    def m(self): return 1",
                 "y = [i for i in range(3)]", "async def f():\\n    yield 1", "lambda: (1, 2.0, 'a', b'b', None, ...)", "x = 1e999 - 1e999",
-                "while a:\\n    a -= 1", "try:\\n    pass\\nfinally:\\n    z = 2", "", "pass"]
+                "while a:\\n    a -= 1", "try:\\n    pass\\nfinally:\\n    z = 2", "", "pass",
+                "greeting = 'h\u00e9llo w\u00f6rld \u4e16\u754c'", "p = 'C:\\\\temp\\\\x' + '\\'' + \"\\t\""]
 
 
 def _cli(args, cwd=None):
@@ -471,7 +472,8 @@ def c16_cli(tier, seed):
             f.write("x = 1\n")
         for args, expect_ok in [([], False), (["-c", "x=1", "-e", "'x=1'"], False), ([path, "-c", "x=1"], False), (["-c", "x=1", "-m", "json"], False),
                                 ([path, "-m", "json"], False), (["-c", "x=1"], True), (["-e", "'x=1'"], True), ([path], True), (["-m", "json.tool"], True),
-                                (["-c", ""], True), (["-e", "''"], True), (["-c", "", "-e", "''"], False), (["-c", "", path], False)]:
+                                (["-c", ""], True), (["-e", "''"], True), (["-c", "", "-e", "''"], False), (["-c", "", path], False),
+                                (["-c", "json", "-m", "json"], False), (["-c", "x=1", "-e", "x=1"], False)]:
             evals += 1
             rc, out, err = _cli(args)
             if expect_ok and rc != 0:
@@ -481,7 +483,7 @@ def c16_cli(tier, seed):
                 fails.append(fail("cli_contract", "args:%r" % (args,), ["%d sources given but exit status %d (usage error expected)" % (sum(1 for a in args if not a.startswith('-') or a in ('-c', '-e', '-m')) , rc)],
                                   {"args": args, "expect_ok": False}))
         flagsets = [[], ["--no-normalize"], ["--json"], ["--json", "--no-normalize"], ["--dis"], ["--dis-after"], ["--source", "--json"]]
-        progs = C16_PROGRAMS if tier == "thorough" else C16_PROGRAMS[:6] + C16_PROGRAMS[-2:]
+        progs = C16_PROGRAMS if tier == "thorough" else C16_PROGRAMS[:6] + C16_PROGRAMS[-4:]
         kinds = ["c", "e", "file"]
         for pi, prog in enumerate(progs):
             for ki, kind in enumerate(kinds):
